@@ -7,7 +7,7 @@ import vlib
 from checks import common, numself
 
 LEVEL = "other"
-HARNESS = {"dist": ["corecel", "celeritas"], "numself": ["corecel"]}
+HARNESS = {"dist": ["corecel", "celeritas"], "eloss": ["corecel", "celeritas"], "numself": ["corecel"]}
 MANIFEST = {
     "category": "other",
     "technique": "Lean 4 proof at ℝ of a Num-generic model of every sampler (support, inverse-CDF "
@@ -18,8 +18,14 @@ MANIFEST = {
     "text": "Model/Dist.lean models UniformReal, Exponential, Normal (Box-Muller with spare), Gamma "
             "(Marsaglia-Tsang), Poisson (direct + Gaussian branch with the unsigned cast), Reciprocal, "
             "InverseSquare, Radial, Isotropic, UniformBox, Bernoulli, Selector, RejectionSampler (and "
-            "its documented loop), TsaiUrban and the energy-loss gamma/gaussian samplers as functions "
-            "of an explicit list of canonical uniforms. Props/C15.lean proves at ℝ, for u in [0,1) "
+            "its documented loop), TsaiUrban, the energy-loss gamma/gaussian samplers, and (Model/"
+            "DistEloss.lean) FluctuationParams' Urban parameters, EnergyLossHelper (kinematics, Bohr "
+            "variance, model selection), EnergyLossUrbanDistribution (constructor with all branches, "
+            "excitation / ionisation / fast sampling) and the helper-selected dispatch, as functions "
+            "of an explicit list of canonical uniforms. For the Urban model it proves the defining "
+            "identity loss_scaling*(xs1*E1 + xs2*E2 + xs_ion*<E>) = requested mean for every "
+            "constructor branch, the sum rules of the material parameters, the Gaussian fast-path "
+            "parameters, the mean split of the ionisation fast simulation, and loss >= 0. Props/C15.lean proves at ℝ, for u in [0,1) "
             "(or (0,1) where stated): every sample lies in the documented support, cdf(sample u) = u "
             "(or 1-u) for the inverse-CDF samplers, |isotropic| = 1, the selector index is < size and "
             "is the first index whose cumulative weight exceeds total*u, exact draw counts, and that "
@@ -32,8 +38,9 @@ MANIFEST = {
             "half-open upper bound b of [a,b) can be attained by rounding); the Poisson Gaussian "
             "branch (repaired in /repo 73ca547: clamp at 0) is proved for counts that fit the 32-bit "
             "result type; u = 0 gives +inf / NaN through log(0) in Exponential and "
-            "Normal; EnergyLossUrbanDistribution and EnergyLossHelper are not modelled; target "
-            "distributions of normal/gamma/Poisson/Tsai-Urban are tested statistically only.",
+            "Normal; target distributions of normal/gamma/Poisson/Tsai-Urban and the sampled mean / "
+            "variance of the energy-loss models are tested statistically only (the Urban mean identity "
+            "itself is proved on the constructor's cross sections).",
 }
 
 TWO53 = float(1 << 53)
@@ -430,9 +437,158 @@ def gen_eloss_lines(rng, w, n):
                 lines.append("eloss " + " ".join(hw + w["mat"][m]["matdata"]) + " | "
                              + " ".join(hx(u) for u in sc))
             tags.append(["helper:" + mod + ":" + PARTICLES[p]])
-    lines += ["helper 0 0 1 |", "urban 0 |", "eloss |", "uparams 9 0 0 0 |"]
+    lines += ["helper 0 0 1 |", "urban 0 |", "eloss |", "uparams 0 0 |"]
     tags += [["malformed"]] * 4
     return lines, tags
+
+
+RHO = [2.26, 1.78e-3, 8.96, 11.35, 1.396]       # g/cm^3 of harness materials (steering only)
+
+
+def tail_ok(xs_ion, emax, n):
+    """the 1/E^2 ionisation spectrum on [E0, Emax] is heavy-tailed: the standard error estimated
+    from n samples is only meaningful if the top decade of the spectrum is populated (>= 100
+    expected collisions above Emax/10)"""
+    return n * xs_ion * 10 * E0 / emax >= 100
+
+
+def gen_eloss_stat_cases(rng, w, n_helper, n_urban, n):
+    """statistical cases: helper-selected model over materials x particles x energies (incl. the
+    slow-particle window) x step thickness (thin to thick, consistent with the mean loss), and
+    direct Urban cases steered into every constructor / sampler branch"""
+    cases, skipped = [], 0
+    k = tries = 0
+    while k < n_helper and tries < 100 * n_helper + 1000:
+        tries += 1
+        m, p = [0, 1, 2, 3][k % 4], (k // 4) % 5
+        lo, hi = E_RANGE[p]
+        energy = logu(rng, lo, hi)
+        if rng.chance(1, 3):          # slow-particle window: 2 m_e b^2 g^2 exp(-b^2) between I and E2
+            md = w["mat"][m]
+            t = math.exp(md["logI"] + (md["logE2"] - md["logI"]) * rng.unit())     # target 2me b2 g2
+            mp = fl(w["part"][p][0])
+            energy = mp * (math.sqrt(1 + t / (2 * fl(w["me"]))) - 1)
+        _, tmax, b2, _, _ = py_helper(w, m, p, energy, 1e30, 1.0, 1.0)
+        mean = max(energy * logu(rng, -4, -0.3), 1.5 * E0)                  # thin ... thick
+        if mean >= energy:
+            continue
+        step = mean / (2.0 * RHO[m] / max(b2, 1e-3) ** 0.8)                 # rough dE/dx (steering)
+        cutoff = rng.choice([1e-3, 1e-2, 0.1, 1.0, 10.0])
+        if p >= 2 and rng.chance(1, 2):
+            # gaussian / gamma regime: T_max <= 2 cutoff and mean >= 10 E_max
+            cutoff = tmax * (0.5 + rng.unit())
+            mean = min(cutoff, tmax) * logu(rng, 1, 2)
+            if mean >= 0.9 * energy or mean < 1.5 * E0:
+                continue
+            step = mean / (2.0 * RHO[m] / max(b2, 1e-3) ** 0.8)
+            mod, _, _, _, bohr = py_helper(w, m, p, energy, cutoff, mean, step)
+            if mod == "gaussian" and rng.chance(1, 2):
+                step *= mean * mean / (4 * bohr) * (1.2 + 3 * rng.unit())   # thick: mean < 2 sigma_Bohr
+        ok = False
+        for _ in range(8):
+            mod, emax, b2, tm, bohr = py_helper(w, m, p, energy, cutoff, mean, step)
+            if mod == "urban":
+                ok = tail_ok(urban_branch(w["mat"][m], mean, emax, tm, b2)[1][2], emax, n)
+            elif mod == "gamma":
+                ok = n * mean * mean / bohr >= 2000         # shape k: skewness 2/sqrt(k)
+            else:
+                ok = True
+            if ok or mod != "urban":
+                break
+            cutoff = max(cutoff / 10, 2 * E0)
+        if not ok:
+            skipped += 1
+            continue
+        words = helper_words(w, m, p, energy, cutoff, mean, step) + w["mat"][m]["matdata"]
+        tg = ["helper:" + mod, PARTICLES[p], MATERIALS[m]]
+        if mod == "urban":
+            tg += urban_branch(w["mat"][m], mean, emax, tm, b2)[0]
+        cases.append({"op": "eloss", "words": words, "mean": mean, "model": mod, "bohr": bohr,
+                      "tags": tg, "desc": "%s in %s E=%.4g MeV step=%.3g cm cut=%.3g mean=%.4g (%s)" % (
+                          PARTICLES[p], MATERIALS[m], energy, step, cutoff, mean, mod)})
+        k += 1
+    want = ["no-exc(Emax<=I)", "no-exc(w<=w0)", "slow-window", "two-level", "both-levels-gauss",
+            "one-level-gauss", "exc-poisson", "ion-fast", "ion-poisson"]
+    tries = k = 0
+    while k < n_urban and tries < 200000:
+        tries += 1
+        m, mean, emax, tm, b2 = gen_urban_params(rng, w)
+        if m == 4:
+            continue
+        emax = min(emax, 1.0)
+        tg, xs = urban_branch(w["mat"][m], mean, emax, tm, b2)
+        if want[k % len(want)] not in tg or max(xs) > 3e4 or not tail_ok(xs[2], emax, n):
+            continue
+        md = w["mat"][m]
+        words = ["%x" % m] + md["matdata"] + [hx(v) for v in (mean, emax, tm, b2)]
+        cases.append({"op": "urban", "words": words, "mean": mean, "model": "urban", "bohr": 0.0,
+                      "tags": ["direct", MATERIALS[m]] + tg,
+                      "desc": "Urban %s mean=%.4g Emax=%.4g 2mb2g2=%.4g b2=%.3g %s" % (
+                          MATERIALS[m], mean, emax, tm, b2, "+".join(tg))})
+        k += 1
+    return cases, skipped
+
+
+def eloss_stat_eval(exe, case, seed, n):
+    _, o = vlib.run_lines([exe], ["stat %x %x %s %s" % (seed, n, case["op"], " ".join(case["words"]))])
+    t = o[0].split()
+    if case["op"] == "eloss":
+        t = t[1:]
+    cnt, mean, var, m4 = int(t[0]), fl(t[1]), fl(t[2]), fl(t[3])
+    mu = case["mean"]
+    se = math.sqrt(var / cnt) if var > 0 else 0.0
+    z = (mean - mu) / se if se > 0 else (0.0 if mean == mu else float("inf"))
+    out = {"n": cnt, "mean": mean, "z_mean": z, "rel": (mean - mu) / mu, "min": fl(t[4]), "max": fl(t[5])}
+    if case["model"] in ("gamma", "gaussian") and case["bohr"] > 0:
+        target = case["bohr"]
+        if case["model"] == "gaussian":            # variance of the normal truncated to mean +- mean
+            c = mu / math.sqrt(target)
+            pdf = math.exp(-0.5 * c * c) / math.sqrt(2 * math.pi)
+            target *= 1 - 2 * c * pdf / (2 * phi(c) - 1)
+        sev = math.sqrt(max(m4 - var * var, 0.0) / cnt)
+        out["z_var"] = (var - target) / sev if sev > 0 else 0.0
+        out["rel_var"] = (var - target) / target
+    return out
+
+
+def eloss_stat_oracle(ctx, exe, w, n_helper, n_urban, n, k=5.0):
+    """TEST: sample mean of every fluctuation model equals the requested mean loss within
+    k standard errors (and, for the gamma / gaussian models, the variance equals the Bohr
+    variance resp. its truncated value); a rejection is re-tested on three fresh seeds"""
+    cases, skipped = gen_eloss_stat_cases(ctx.rng, w, n_helper, n_urban, n)
+    base = ctx.seed * 7919 + 101
+    summary, cover, total, worst = [], {}, 0, 0.0
+    for ci, case in enumerate(cases):
+        for t in case["tags"]:
+            cover[t] = cover.get(t, 0) + 1
+        r = eloss_stat_eval(exe, case, base + ci, n)
+        total += r["n"]
+
+        def bad(r):
+            if r["min"] < 0 or not math.isfinite(r["max"]):
+                return True
+            if abs(r["z_mean"]) > k and abs(r["rel"]) > 2e-3:
+                return True
+            return "z_var" in r and abs(r["z_var"]) > k and abs(r["rel_var"]) > 1e-2
+        worst = max(worst, abs(r["z_mean"]) if abs(r["rel"]) > 2e-3 else 0.0)
+        if bad(r):
+            again = [eloss_stat_eval(exe, case, base + 104729 * (j + 1) + ci, n) for j in range(3)]
+            total += sum(a["n"] for a in again)
+            summary.append({"case": case["desc"], "first": r, "confirm": again})
+            if all(bad(a) for a in again):
+                key = "stat:eloss-mean:" + case["model"] + ":" + "+".join(
+                    t for t in case["tags"] if t in ("no-exc(Emax<=I)", "no-exc(w<=w0)", "slow-window",
+                                                     "two-level", "both-levels-gauss"))
+                ctx.violation(key, "statistical test: energy-loss fluctuation sampler does not "
+                              f"reproduce the requested mean loss / variance: {case['desc']}: sample mean "
+                              f"{r['mean']:.6g} vs {case['mean']:.6g} (z={r['z_mean']:.1f}, "
+                              f"{100 * r['rel']:.2f}%), confirmed on 3 seeds",
+                              {"harness": "harness/eloss.cc",
+                               "op": "stat %x %x %s %s" % (base + ci, n, case["op"], " ".join(case["words"])),
+                               "expected_mean": case["mean"], "first": r, "confirm": again,
+                               "theorem": "Props/C15.lean urban_mean_identity"})
+    return {"cases": len(cases), "skipped_heavy_tail": skipped, "samples": total, "branch_cover": dict(sorted(cover.items())),
+            "rejected_then_retested": summary, "max_abs_z_mean": worst}, total
 
 
 # --------------------------------------------------------------------------- impl-side oracle
@@ -760,6 +916,76 @@ FINDING_TEXT = {
 }
 
 
+def eloss_oracle(line, out):
+    """impl-side predicate for the energy-loss ops: finite non-negative loss; `none` returns the mean"""
+    w = line.split()
+    if w[0] not in ("urban", "eloss") or out in ("bad-op", "bad-data", "script-exhausted"):
+        return ("oracle:eloss:bad-data", "harness rejected the op data: " + out) if out == "bad-data" else None
+    bar = w.index("|")
+    sc = [fl(v) for v in w[bar + 1:]]
+    ow = out.split()
+    loss, draws = fl(ow[-2]), int(ow[-1])
+    if math.isnan(loss) or math.isinf(loss):
+        if any(u == 0.0 for u in sc[:draws]):
+            return ("normal-u0-nonfinite", "energy-loss sampler returns %r after a uniform equal to 0 "
+                    "reached log() in NormalDistribution" % loss)
+        return ("oracle:eloss:nonfinite", "non-finite energy loss %r" % loss)
+    if loss < 0:
+        return ("oracle:eloss:negative", "negative energy loss %r" % loss)
+    if w[0] == "eloss" and ow[0] == "0" and (draws != 0 or hx(loss) != w[11]):
+        return ("oracle:eloss:none", "model none must return the mean loss without draws: " + out)
+    return None
+
+
+def eloss_part(ctx, ps, broken, quick):
+    """energy-loss fluctuation models: exact diff, impl-side oracle, statistical mean test"""
+    exe, log, _ = vlib.build_harness("eloss", HARNESS["eloss"])
+    if exe is None:
+        ctx.violation("harness-build", "harness/eloss.cc no longer builds against /repo",
+                      {"correspondence": "harness build", "log": log[-2000:]}, found_input=False)
+        return {"evaluations": 0, "distinct": 0, "coverage": {"harness": "build failed"}}
+    w = eloss_world(exe)
+    lines, tags = gen_eloss_lines(ctx.rng, w, 25000 if quick else 250000)
+    _, oh = vlib.run_lines([exe], lines)
+    diverged = []
+    if ps["model_ok"]:
+        _, om = vlib.run_lines([vlib.model_exe("C15")], lines)
+        for i, l in enumerate(lines):
+            a = oh[i] if i < len(oh) else "<missing>"
+            b = om[i] if i < len(om) else "<missing>"
+            if not nan_tolerant_equal(a, b):
+                diverged.append({"op": l, "impl": a, "model": b, "branch": tags[i]})
+    if diverged:
+        broken.append(f"correspondence (energy-loss models): model and implementation differ on "
+                      f"{len(diverged)} ops (first: {diverged[0]['op'][:60]} ... {diverged[0]['branch']})")
+        by_tag = {}
+        for d in diverged:
+            for t in d["branch"]:
+                by_tag[t] = by_tag.get(t, 0) + 1
+    cover, distinct, seen = {}, set(), {}
+    for i, l in enumerate(lines):
+        a = oh[i] if i < len(oh) else "<missing>"
+        for t in tags[i]:
+            cover[t] = cover.get(t, 0) + 1
+        if a not in ("bad-op", "bad-data", "script-exhausted", "<missing>"):
+            distinct.add(l)
+        try:
+            r = eloss_oracle(l, a)
+        except (ValueError, IndexError) as e:
+            r = ("oracle:eloss:unparsable", "cannot interpret harness answer %r (%s)" % (a, e))
+        if r and r[0] not in seen:
+            seen[r[0]] = (r[1], l, a)
+    for key, (text, l, a) in sorted(seen.items()):
+        ctx.violation(key, "real energy-loss sampler (ScriptedEngine): " + text,
+                      {"harness": "harness/eloss.cc", "op": l, "impl_output": a})
+    st, st_n = eloss_stat_oracle(ctx, exe, w, 60 if quick else 400, 36 if quick else 180,
+                                 20000 if quick else 100000)
+    return {"evaluations": len(lines) + st_n, "distinct": len(distinct),
+            "coverage": {"lines": len(lines), "diverging_ops": len(diverged),
+                         "first_divergences": diverged[:3], "branch_cover": dict(sorted(cover.items())),
+                         "oracle_keys": sorted(seen), "statistical_mean_test": st}}
+
+
 def run(ctx):
     quick = ctx.quick()
     ps = common.proof_side(ctx, "C15")
@@ -833,6 +1059,7 @@ def run(ctx):
                        "params": [fl(w) if len(w) == 16 else w for w in pw], "script": s,
                        "theorem": FINDING_TEXT.get(key, "Props/C15.lean *_support")})
     st_results, st_n = stat_oracle(ctx, exe, 40000 if quick else 250000)
+    el = eloss_part(ctx, ps, broken, quick)
     if broken and not ctx.violations:
         ctx.violation("unproved", "; ".join(broken)[:600],
                       {"no_longer_checks": broken, "diverging_ops": diverged[:3]}, found_input=False)
@@ -850,7 +1077,13 @@ def run(ctx):
         "ratios <= 1e20); documented preconditions (CELER_EXPECT) are respected by the generators",
         "static_cast<unsigned>(negative double) is undefined in C++; the model reproduces what the "
         "x86-64 release binary does (cvttsd2si, low 32 bits)",
-        "EnergyLossUrbanDistribution / EnergyLossHelper are not modelled",
+        "energy-loss models: material / particle data are inputs of the model; the harness checks "
+        "on every op that they are bit-identical to the real MaterialParams / ParticleParams / "
+        "FluctuationParams data (C, Ar gas, Cu, Pb, liquid Ar; e-, e+, mu-, mu+, p); evaluation order "
+        "of `sample_excitation_loss(rng) + sample_ionization_loss(rng)` is the compiled one",
+        "the statistical mean / variance test of the energy-loss samplers skips nothing but is only "
+        "generated where the standard error is meaningful (top decade of the 1/E^2 spectrum populated, "
+        "gamma shape k with n*k >= 2000)",
         "the default GenerateCanonical (std::generate_canonical of libstdc++, used only with engines "
         "other than XorwowRngEngine) is not modelled in Lean: compared with an exact reference and "
         "range-checked on the real code; the Xorwow specialisation is C13's subject",
@@ -858,7 +1091,8 @@ def run(ctx):
         "the real XorwowRngEngine, not a proof",
     ]
     ctx.coverage.update({
-        "evaluations": len(lines) + len(sc) + st_n, "distinct_nontrivial": len(distinct),
+        "evaluations": len(lines) + len(sc) + st_n + el["evaluations"],
+        "distinct_nontrivial": len(distinct) + el["distinct"], "eloss": el["coverage"],
         "stdcanon_lines": len(sc), "stdcanon_mismatches": len(sc_bad),
         "rule": "op lines = distribution + parameters (log-uniform over wide ranges, special values, "
                 "branch thresholds) + script of canonical uniforms (53-bit grid values, extremes 0, "
@@ -874,15 +1108,18 @@ def run(ctx):
         "explanation": "support / inverse-CDF / unit-norm / valid-index / draw-count / first-accept "
                        "theorems are proved at ℝ on a model tied bit-exactly to the code; NOT proved: "
                        "floating-point rounding, the target distribution of the rejection-based samplers "
-                       "(normal, gamma, Poisson, Tsai-Urban: statistical test only), the Urban "
-                       "energy-loss model (not modelled)",
+                       "(normal, gamma, Poisson, Tsai-Urban: statistical test only), the sampled mean and "
+                       "variance of the energy-loss models as probabilistic statements (statistical test; "
+                       "what is proved is the algebraic mean identity of the constructor and of the "
+                       "fast-simulation splits)",
     })
     return LEVEL
 
 
 def replay(ctx, data):
-    exe, log, _ = vlib.build_harness("dist", HARNESS["dist"])
     r = data["replay"]
+    hname = "eloss" if r.get("harness", "").endswith("eloss.cc") else "dist"
+    exe, log, _ = vlib.build_harness(hname, HARNESS[hname])
     if "op" in r:
         _, o = vlib.run_lines([exe], [r["op"]])
         print("op:", r["op"])
